@@ -66,6 +66,10 @@ Explained(e, M) ==
                                ELSE RejectedSize(e)
     \* float-only norms: the harness logs the error of norm_p / norm_frob in units of 16*(r*c+1)*eps
     [] e.op = "norm_units" -> ~e.panic /\ e.units <= 1
+    \* entrywise operators of Matrix<f64> on general values: every entry is ONE rounded operation of the
+    \* definition (bit patterns logged next to those of the primitive operation), shape kept, operand kept
+    [] e.op = "ew_bits" -> /\ ~e.panic /\ e.keep /\ e.gr = e.r /\ e.gc = e.c
+                            /\ Len(e.got) = e.r * e.c /\ e.got = e.want
     [] OTHER -> FALSE
 
 Init == l = 1 /\ cur = Empty /\ TLCSet(1, 0)
